@@ -395,15 +395,15 @@ impl SendRateComp {
 #[cfg(uflow_verif)]
 impl SendRateComp {
     /// (send_rate, max_send_rate, mode tag 0/1/2, throughput-equation rate, nofeedback expiry, nofeedback idle,
-    /// rtt_s bits, rtt_ms, rto_ms, number of receive-rate entries)
-    pub fn verif_probe(&self) -> (u32, u32, u8, u32, Option<u64>, bool, Option<u64>, Option<u64>, Option<u64>, usize) {
+    /// rtt_s bits, rtt_ms, rto_ms, number of receive-rate entries, bits of the loss event rate of the last feedback)
+    pub fn verif_probe(&self) -> (u32, u32, u8, u32, Option<u64>, bool, Option<u64>, Option<u64>, Option<u64>, usize, u64) {
         let (tag, tcp) = match self.mode {
             SendRateMode::AwaitSend => (0, 0),
             SendRateMode::SlowStart(_) => (1, 0),
             SendRateMode::ThroughputEqn(ref st) => (2, st.send_rate_tcp),
         };
         (self.send_rate, self.max_send_rate, tag, tcp, self.nofeedback_exp_ms, self.nofeedback_idle,
-         self.rtt_s.map(|v| v.to_bits()), self.rtt_ms, self.rto_ms, self.recv_rate_set.verif_len())
+         self.rtt_s.map(|v| v.to_bits()), self.rtt_ms, self.rto_ms, self.recv_rate_set.verif_len(), self.prev_loss_rate.to_bits())
     }
 }
 
